@@ -72,6 +72,13 @@ def run(ctx):
                 continue
             datas.append((bytes([131, 80]) + struct.pack(">I", declared & 0xffffffff) + z, 0))
             datas.append((bytes([131, 104, 1, 80]) + struct.pack(">I", declared & 0xffffffff) + z + b"\x61", 0))
+    # long deflated streams (moderately compressible data), declared size exact / one short / one long
+    for n, alphabet in ((60000, 40), (200000, 16)):
+        blob = bytes(rng.randrange(alphabet) for _ in range(n))
+        plain = bytes([109]) + struct.pack(">I", n) + blob
+        z = zlib.compress(plain)
+        for declared in (len(plain), len(plain) - 1, len(plain) + 1):
+            datas.append((bytes([131, 80]) + struct.pack(">I", declared) + z, 0))
     base = [d for _, d in bytesgen.valid_encodings(rng, ctx.budget(250, 3000), canonical_share=0.5) if len(d) < 400]
     for d in base:
         datas.append((d, 0))
